@@ -29,6 +29,8 @@ pub struct Resv {
     pub crowd: Option<u8>,
     /// Bitfields (masks) the real peers send during setup; no Bitfield events in the search then.
     pub preset: Option<Vec<u8>>,
+    /// Every store attempted by connection 0 fails (a directory sits where it writes a piece aside).
+    pub store_fails: bool,
 }
 
 #[derive(Default, Clone)]
@@ -55,7 +57,7 @@ pub struct Mon {
 impl Scenario for Resv {
     type Mon = Mon;
     fn name(&self) -> String {
-        format!("resv-p{}-n{}-{}-m{:?}{}{}", self.peers, self.pieces, if self.gated { "gated" } else { "direct" }, self.masks, if self.with_close { "-close" } else { "" }, if self.with_interest { "-int" } else { "" }) + if self.repeat_bitfield { "-rebf" } else { "" } + if self.busy { "-fullqueue" } else { "" } + &match (&self.crowd, &self.preset) { (Some(c), Some(p)) => format!("-crowd{}-preset{:?}", c, p), _ => String::new() }
+        format!("resv-p{}-n{}-{}-m{:?}{}{}", self.peers, self.pieces, if self.gated { "gated" } else { "direct" }, self.masks, if self.with_close { "-close" } else { "" }, if self.with_interest { "-int" } else { "" }) + if self.repeat_bitfield { "-rebf" } else { "" } + if self.busy { "-fullqueue" } else { "" } + &match (&self.crowd, &self.preset) { (Some(c), Some(p)) => format!("-crowd{}-preset{:?}", c, p), _ => String::new() } + if self.store_fails { "-store-of-conn0-fails" } else { "" }
     }
     fn cfg(&self) -> WorldCfg {
         WorldCfg { torrent: Torrent::new("t", 5, &[("f", 5 * self.pieces)], true), have: vec![], peers: (0..self.peers).map(|k| peer_cfg(k, k % 2 == 0)).collect(), gated: self.gated, stale: vec![] }
@@ -73,6 +75,12 @@ impl Scenario for Resv {
         mon.had = vec![false; self.pieces];
         if self.busy {
             w.add_mgr_peer();
+        }
+        if self.store_fails {
+            let addr: String = w.peers[0].cfg.addr.chars().map(|c| if c.is_ascii_alphanumeric() { c } else { '_' }).collect();
+            for i in 0..t.pieces.len() {
+                std::fs::create_dir_all(w.dir.join(format!("{}.{}.part", t.piece_file(i), addr))).expect("cannot block the part path");
+            }
         }
         if let Some(c) = self.crowd {
             for _ in 0..2 {
@@ -363,34 +371,36 @@ pub fn strip_counters(k: &str) -> String {
 /// is chosen for B, and record, reservation, request and completion must all speak of that piece.
 /// Borrowed by C01, C10 and C11 (same invariants, reported under their ids).
 pub fn have_path_scenario(thorough: bool) -> (Resv, usize) {
-    (Resv { peers: 2, pieces: 13, gated: false, masks: vec![], with_close: true, with_interest: false, repeat_bitfield: false, busy: false, crowd: Some(2), preset: Some(vec![1, 1]) }, if thorough { 8 } else { 6 })
+    (Resv { peers: 2, pieces: 13, gated: false, masks: vec![], with_close: true, with_interest: false, repeat_bitfield: false, busy: false, crowd: Some(2), preset: Some(vec![1, 1]), store_fails: false }, if thorough { 8 } else { 6 })
 }
 
 pub fn scenarios(thorough: bool) -> Vec<(Resv, usize)> {
     if thorough {
         vec![
-            (Resv { peers: 2, pieces: 3, gated: false, masks: vec![7, 1, 3], with_close: true, with_interest: true, repeat_bitfield: false, busy: false, crowd: None, preset: None }, 9),
-            (Resv { peers: 2, pieces: 13, gated: false, masks: vec![7, 1], with_close: true, with_interest: false, repeat_bitfield: false, busy: false, crowd: None, preset: None }, 9),
-            (Resv { peers: 3, pieces: 3, gated: false, masks: vec![7], with_close: false, with_interest: false, repeat_bitfield: false, busy: false, crowd: None, preset: None }, 8),
-            (Resv { peers: 2, pieces: 3, gated: true, masks: vec![7, 3], with_close: false, with_interest: false, repeat_bitfield: false, busy: false, crowd: None, preset: None }, 9),
-            (Resv { peers: 2, pieces: 13, gated: false, masks: vec![1, 3, 6], with_close: false, with_interest: false, repeat_bitfield: true, busy: false, crowd: None, preset: None }, 7),
-            (Resv { peers: 2, pieces: 3, gated: false, masks: vec![1, 6], with_close: false, with_interest: true, repeat_bitfield: true, busy: false, crowd: None, preset: None }, 8),
-            (Resv { peers: 2, pieces: 1, gated: true, masks: vec![1], with_close: false, with_interest: true, repeat_bitfield: false, busy: false, crowd: None, preset: None }, 11),
-            (Resv { peers: 2, pieces: 3, gated: false, masks: vec![3], with_close: true, with_interest: false, repeat_bitfield: false, busy: true, crowd: None, preset: None }, 8),
+            (Resv { peers: 2, pieces: 3, gated: false, masks: vec![7, 1, 3], with_close: true, with_interest: true, repeat_bitfield: false, busy: false, crowd: None, preset: None, store_fails: false }, 9),
+            (Resv { peers: 2, pieces: 13, gated: false, masks: vec![7, 1], with_close: true, with_interest: false, repeat_bitfield: false, busy: false, crowd: None, preset: None, store_fails: false }, 9),
+            (Resv { peers: 3, pieces: 3, gated: false, masks: vec![7], with_close: false, with_interest: false, repeat_bitfield: false, busy: false, crowd: None, preset: None, store_fails: false }, 8),
+            (Resv { peers: 2, pieces: 3, gated: true, masks: vec![7, 3], with_close: false, with_interest: false, repeat_bitfield: false, busy: false, crowd: None, preset: None, store_fails: false }, 9),
+            (Resv { peers: 2, pieces: 13, gated: false, masks: vec![1, 3, 6], with_close: false, with_interest: false, repeat_bitfield: true, busy: false, crowd: None, preset: None, store_fails: false }, 7),
+            (Resv { peers: 2, pieces: 3, gated: false, masks: vec![1, 6], with_close: false, with_interest: true, repeat_bitfield: true, busy: false, crowd: None, preset: None, store_fails: false }, 8),
+            (Resv { peers: 2, pieces: 1, gated: true, masks: vec![1], with_close: false, with_interest: true, repeat_bitfield: false, busy: false, crowd: None, preset: None, store_fails: false }, 11),
+            (Resv { peers: 2, pieces: 3, gated: false, masks: vec![3], with_close: true, with_interest: false, repeat_bitfield: false, busy: true, crowd: None, preset: None, store_fails: false }, 8),
         ]
     } else {
         vec![
-            (Resv { peers: 2, pieces: 3, gated: false, masks: vec![7, 1], with_close: true, with_interest: false, repeat_bitfield: false, busy: false, crowd: None, preset: None }, 6),
-            (Resv { peers: 2, pieces: 13, gated: false, masks: vec![7], with_close: false, with_interest: false, repeat_bitfield: false, busy: false, crowd: None, preset: None }, 6),
-            (Resv { peers: 2, pieces: 13, gated: false, masks: vec![1, 3], with_close: false, with_interest: false, repeat_bitfield: true, busy: false, crowd: None, preset: None }, 5),
-            (Resv { peers: 1, pieces: 3, gated: false, masks: vec![1, 6], with_close: false, with_interest: true, repeat_bitfield: true, busy: false, crowd: None, preset: None }, 7),
+            (Resv { peers: 2, pieces: 3, gated: false, masks: vec![7, 1], with_close: true, with_interest: false, repeat_bitfield: false, busy: false, crowd: None, preset: None, store_fails: false }, 6),
+            (Resv { peers: 2, pieces: 13, gated: false, masks: vec![7], with_close: false, with_interest: false, repeat_bitfield: false, busy: false, crowd: None, preset: None, store_fails: false }, 6),
+            (Resv { peers: 2, pieces: 13, gated: false, masks: vec![1, 3], with_close: false, with_interest: false, repeat_bitfield: true, busy: false, crowd: None, preset: None, store_fails: false }, 5),
+            (Resv { peers: 1, pieces: 3, gated: false, masks: vec![1, 6], with_close: false, with_interest: true, repeat_bitfield: true, busy: false, crowd: None, preset: None, store_fails: false }, 7),
             // held-back broadcasts: a peer can leave, choke or finish before its task saw SendHave
-            (Resv { peers: 2, pieces: 3, gated: true, masks: vec![7], with_close: true, with_interest: false, repeat_bitfield: false, busy: false, crowd: None, preset: None }, 6),
+            (Resv { peers: 2, pieces: 3, gated: true, masks: vec![7], with_close: true, with_interest: false, repeat_bitfield: false, busy: false, crowd: None, preset: None, store_fails: false }, 6),
             // both peers offer the same single piece (end game: both are asked for it), interest of the
             // peers keeps them connected after the client lost interest; answers to cancelled requests
-            (Resv { peers: 2, pieces: 1, gated: true, masks: vec![1], with_close: false, with_interest: true, repeat_bitfield: false, busy: false, crowd: None, preset: None }, 8),
+            (Resv { peers: 2, pieces: 1, gated: true, masks: vec![1], with_close: false, with_interest: true, repeat_bitfield: false, busy: false, crowd: None, preset: None, store_fails: false }, 8),
+            // a storage fault at the moment a piece completes: the reservation must not outlive it
+            (Resv { peers: 1, pieces: 13, gated: false, masks: vec![1, 3], with_close: false, with_interest: false, repeat_bitfield: false, busy: false, crowd: None, preset: None, store_fails: true }, 6),
             // a busy manager whose command queue is full when the peer's next message arrives
-            (Resv { peers: 1, pieces: 3, gated: false, masks: vec![3], with_close: true, with_interest: false, repeat_bitfield: false, busy: true, crowd: None, preset: None }, 7),
+            (Resv { peers: 1, pieces: 3, gated: false, masks: vec![3], with_close: true, with_interest: false, repeat_bitfield: false, busy: true, crowd: None, preset: None, store_fails: false }, 6),
         ]
     }
 }
@@ -399,11 +409,8 @@ pub fn run(ctx: &Ctx) -> Outcome {
     let thorough = ctx.tier == core::Tier::Thorough;
     let mut total = explore::Stats { exhaustive: true, ..Default::default() };
     let mut per = vec![];
-    for (s, depth) in scenarios(thorough) {
-        let st = explore::bfs(ctx, &s, depth, ctx.tier.pick(50, 25));
-        per.push(json!({"scenario": s.name(), "depth": depth, "states": st.states, "transitions": st.transitions, "depth_completed": st.depth_completed, "choice_points": st.choice_points, "frontier": st.frontier_sizes}));
-        total.merge(&st);
-    }
+    // the small scenarios and the real-socket exchanges run first: if the wall-clock cap of the tier is
+    // ever reached (a loaded machine), it is the big searches at the end that are cut short
     {
         let (s, depth) = have_path_scenario(thorough);
         let st = explore::bfs(ctx, &s, depth, ctx.tier.pick(50, 25));
@@ -453,10 +460,15 @@ pub fn run(ctx: &Ctx) -> Outcome {
             }
         }
     }
+    for (s, depth) in scenarios(thorough) {
+        let st = explore::bfs(ctx, &s, depth, ctx.tier.pick(50, 25));
+        per.push(json!({"scenario": s.name(), "depth": depth, "states": st.states, "transitions": st.transitions, "depth_completed": st.depth_completed, "choice_points": st.choice_points, "frontier": st.frontier_sizes}));
+        total.merge(&st);
+    }
     let mut o = Outcome::new("model_checking");
     explore::stats_outcome(&total, &mut o);
     o.set("scenarios", Value::Array(per));
-    o.set("rule", json!("events per peer k: B<k>:<mask> bitfield over the first three pieces (first message; in the -rebf scenarios also repeated/late, at most twice), H<k>:<i> have, C<k> choke, U<k> unchoke (repeatable), I<k>/N<k> interest, P<k> correct answer to the oldest outstanding request (also while choking), Q<k> answer to a request the client has cancelled (it crossed the Cancel on the wire; gated scenarios), X<k> disconnect, L<k> release of a held-back broadcast (gated scenarios); in the -fullqueue scenario Z (the manager becomes busy and 64 statistics reports of the rest of the swarm fill its command queue to the last slot, so a task's next command finds no room) and R (the manager comes back and works the queue off; judged from then on); single-block pieces; torrents of 3 pieces (end game) and 13 pieces of which only 3 are ever advertised (no end game); every Fisher-Yates tie-break of the chooser is a choice point; states = canonical snapshots of manager + all connection tasks + piece files + monitor (rate counters dropped: no timer event). Plus the Have-path scenario (-crowd2-preset[1, 1]: two real peers hold piece 0, two choking manager-only peers hold piece 1, bitfields sent during setup, 13 pieces): a piece freed by a choking / leaving holder competes with a more common piece that the idle holder announces; record, reservation, request and completion must speak of the chosen piece, what is counted as owned or announced must be stored. Plus three full-session scenarios borrowed from C02 (reservation-*): a 12-entry tracker reply naming one address twice, a host re-listed under a new peer id, a seeder plus a peer that leaves and is offered again; there only the manager's reservation records are judged (a Reserved piece has a connected, unchoking holder; no task panics)."));
+    o.set("rule", json!("events per peer k: B<k>:<mask> bitfield over the first three pieces (first message; in the -rebf scenarios also repeated/late, at most twice), H<k>:<i> have, C<k> choke, U<k> unchoke (repeatable), I<k>/N<k> interest, P<k> correct answer to the oldest outstanding request (also while choking), Q<k> answer to a request the client has cancelled (it crossed the Cancel on the wire; gated scenarios), X<k> disconnect, L<k> release of a held-back broadcast (gated scenarios); in the -fullqueue scenario Z (the manager becomes busy and 64 statistics reports of the rest of the swarm fill its command queue to the last slot, so a task's next command finds no room) and R (the manager comes back and works the queue off; judged from then on); single-block pieces; torrents of 3 pieces (end game) and 13 pieces of which only 3 are ever advertised (no end game); every Fisher-Yates tie-break of the chooser is a choice point; states = canonical snapshots of manager + all connection tasks + piece files + monitor (rate counters dropped: no timer event). Plus a scenario in which every store of connection 0 fails (-store-of-conn0-fails: a directory sits where it writes a piece aside): a completed piece that cannot be stored must not stay reserved. Plus the Have-path scenario (-crowd2-preset[1, 1]: two real peers hold piece 0, two choking manager-only peers hold piece 1, bitfields sent during setup, 13 pieces): a piece freed by a choking / leaving holder competes with a more common piece that the idle holder announces; record, reservation, request and completion must speak of the chosen piece, what is counted as owned or announced must be stored. Plus three full-session scenarios borrowed from C02 (reservation-*): a 12-entry tracker reply naming one address twice, a host re-listed under a new peer id, a seeder plus a peer that leaves and is offered again; there only the manager's reservation records are judged (a Reserved piece has a connected, unchoking holder; no task panics)."));
     o.assume("invariants are evaluated in quiescent states (every queued command handled); reduction argument in DESIGN.md 0.2");
     o
 }
